@@ -597,7 +597,7 @@ pub fn run(args: &Args) -> i32 {
          compared); distinct = distinct (price, decimals, token decimals, precision) tuples",
     );
     let n_shards = 64u64;
-    let per_shard = args.scale(2_000_000, 30_000_000);
+    let per_shard = args.scale(2_000_000, 24_000_000);
     vcommon::monitor::run_shards(&mut mon, args.threads, n_shards, |shard, m| {
         if shard < 24 {
             sweep(m, shard as u8);
